@@ -403,8 +403,8 @@ pub fn run(args: &Args, rec: &mut Recorder) {
     rec.rule = "evaluation = one generated document split at element boundaries into a main file and include files (1-3 levels, sub-directories, quoted/unquoted names, / and \\ separators, include directives inside nested blocks and in the A2ML block) written to a fresh directory tree: load(main) must equal load_from_string(text with every directive replaced by the file content); the file written next to main must reload to an equal model and keep the directives of the main file; after merge_includes() the text must contain no /include and load to an equal model; plus one evaluation per fault case (missing file, directory instead of file, empty file, self inclusion, mutual inclusion, missing nested file, directive without name) which must end in an error naming the directive. distinct_nontrivial = distinct file trees by content hash".into();
     rec.assumptions.push("include files hold runs of complete sibling elements; an empty include file is transparent (no fault)".into());
     let g = Grammar::load_default();
-    let total: u64 = if args.thorough { 20_000 } else { 800 };
-    let n_faults: u64 = if args.thorough { 400 } else { 60 };
+    let total: u64 = if args.thorough { 100_000 } else { 3_000 };
+    let n_faults: u64 = if args.thorough { 1_000 } else { 120 };
     let scratch = crate::c03::scratch_dir(args);
     run_cases(args, rec, total + n_faults, crate::util::reset_budget, |rng, case, rec| {
         if case < n_faults {
